@@ -147,6 +147,16 @@ func ruleColor(c *Ctx) {
 				if cal := calleeOf(ins); cal != nil && defaults[cal] {
 					is = true
 				}
+				// ... or hand a package-level scheme to a constructor that takes one
+				if ci, ok := ins.(ssa.CallInstruction); ok {
+					if cal := ci.Common().StaticCallee(); cal != nil && isRepoFunc(cal) {
+						for ai, a := range ci.Common().Args {
+							if _, isG := isSchemeGlobalLoad(a); isG && ai < len(cal.Params) && isColorScheme(cal.Params[ai].Type()) {
+								is = true
+							}
+						}
+					}
+				}
 			})
 			if is {
 				defaults[fn] = true
